@@ -10,10 +10,4 @@ theorem all_writes_sync : ∀ w ∈ leveldbWrites, w.2 = true := by decide
 /-- …and there is at least one write site per persister (the fact list is not vacuous) -/
 theorem write_sites_present : 2 ≤ leveldbWrites.length := by decide
 
-/-- the persister read paths read the pending batch in one critical section and the flush paths hold the batch mutex
-    until LevelDB has the batch: the block structure of SV.Conc.PersistConc is the structure of the code -/
-theorem persister_blocks :
-    (dbGetBatchReadsAtomic && dbHasBatchReadsAtomic && serialGetBatchReadsAtomic && serialHasBatchReadsAtomic &&
-     serialFlushHoldsLock && dbFlushHoldsLock) = true := by decide
-
 end SV.Facts
